@@ -128,6 +128,21 @@ func sessionPools(r *Rand, npools int) ([][]sessInput, int) {
 		ftxt := "script A {\n    msgbox(format(\"aaaa bbbb cccc dddd eeee ffff\"))\n}\n"
 		ftxt2 := "text T {\n    format(\"aaaa bbbb cccc dddd\")\n}\n"
 		pools = append(pools, []sessInput{{ftxt, a}, {ftxt, b2}, {ftxt2, b2}, {ftxt2, a}})
+		// a config with several fonts and no default font: whatever the answer is (an error today),
+		// it is the same every time
+		nd := base
+		{
+			fs := map[string]parser.Fonts{}
+			for i, id := range []string{"F", "G", "H", "I"} {
+				fs[id] = parser.Fonts{Widths: map[string]int{" ": 3 + 4*i, "default": 3 + 4*i}, MaxLineLength: 60 + 40*i, NumLines: 2}
+			}
+			b, _ := jsonMarshal(parser.FontConfig{Fonts: fs})
+			nd.FontConfig = filepath.Join(dir, "nodefault.json")
+			os.WriteFile(nd.FontConfig, b, 0o644)
+		}
+		ndF := nd
+		ndF.FontID = "G"
+		pools = append(pools, []sessInput{{ftxt, nd}, {ftxt2, nd}, {ftxt, ndF}, {"script A {\n    msgbox(format(\"aaaa bbbb cccc dddd eeee ffff\", \"H\"))\n}\n", nd}})
 	}
 	sw1, sw2 := base, base
 	sw1.Switches = map[string]string{"GAME": "RUBY"}
